@@ -184,6 +184,16 @@ fn inner(name: &str, a: &[String]) -> String {
             Ok(x) => format!("Ok {}", e(x)),
             Err(_) => "Err".to_string(),
         },
+        "year_only" => format!("{}", Epoch::from_duration(dur(a, 0), scale(&a[2])).year()),
+        "month_name_only" => format!("{}", Epoch::from_duration(dur(a, 0), scale(&a[2])).month_name() as u8),
+        "year_pair" => {
+            let ep = Epoch::from_duration(dur(a, 0), scale(&a[2]));
+            format!("{} {}", ep.year(), Epoch::compute_gregorian(dur(a, 0), scale(&a[2])).0)
+        }
+        "month_name_pair" => {
+            let ep = Epoch::from_duration(dur(a, 0), scale(&a[2]));
+            format!("{} {}", ep.month_name() as u8, Epoch::compute_gregorian(dur(a, 0), scale(&a[2])).1 - 1)
+        }
         "compute_gregorian" => {
             let (y, mo, dd, h, mi, sec, ns) = Epoch::compute_gregorian(dur(a, 0), scale(&a[2]));
             format!("{y} {mo} {dd} {h} {mi} {sec} {ns}")
